@@ -31,7 +31,7 @@ import (
 	smtp "github.com/emersion/go-smtp"
 )
 
-const scWatchdog = 5 * time.Second
+const scWatchdog = 15 * time.Second
 
 // ---- a backend whose deliveries can be held at two points ----
 
